@@ -482,7 +482,9 @@ pub fn gen_boundary(part: usize, parts: usize, _th: bool, emit: &mut dyn FnMut(&
 
 pub fn check_boundary(item: &str, _ctx: &Ctx) -> Outcome {
     let unit = item;
-    let per_line = 960 / unit.len();
+    // the listed form must fit into a line too (? lists as PRINT)
+    let listed_unit = basic::lang::Line::new(&format!("1 {}Z9=7", unit)).to_string().len() - "1 Z9=7".len();
+    let per_line = 960 / listed_unit.max(unit.len());
     let tail = "Z9=7";
     let mut o = Opts::default();
     o.max_calls = 400_000;
